@@ -230,6 +230,20 @@ func SnapMsg(r *Rec, m *sipsp.PSIPMsg, buf []byte) {
 			r.Bool("Buf aliases buf", aliasStart(m.Buf, buf))
 		}
 	}
+	// the message signature is part of what a caller reads back from a parsed message: it walks the
+	// header array and the parsed values (stale entries behind the stored headers would show here)
+	if m.Parsed() && r.OOB == "" && r.MaxEnd <= len(m.Buf) {
+		sig, serr := sipsp.GetMsgSig(m)
+		r.Val("Sig.err", int64(serr))
+		r.Val("Sig.Method", int64(sig.Method))
+		r.Val("Sig.Cid", int64(sig.CidSig)<<8|int64(sig.CidSLen))
+		r.Val("Sig.From", int64(sig.FromSig))
+		r.Val("Sig.ViaB", int64(sig.ViaBSig))
+		r.Val("Sig.HdrSigLen", int64(sig.HdrSigLen))
+		for i := 0; i < sig.HdrSigLen && i < len(sig.HdrSig); i++ {
+			r.Val(fmt.Sprintf("Sig.HdrSig[%d]", i), int64(sig.HdrSig[i]))
+		}
+	}
 	// once this parse has published Buf / RawMsg, every reported field points into Buf
 	// (signature and other helpers dereference the fields of a successfully parsed message against it)
 	if m.Parsed() && r.MaxEnd > len(m.Buf) && r.OOB == "" {
